@@ -143,6 +143,11 @@ def escape_programs():
             if k: bodies.append(b"\\" + lead + b"1" * (k - 1) + b"g")
         bodies.append(b"\\" + lead + b"0010ffff"[:n])
         bodies.append(b"\\U00110000"); bodies.append(b"\\Uffffffff"); bodies.append(b"\\ud800"); bodies.append(b"\\udfff\\ud800")
+    # UTF-16 surrogate escapes as a Python 2 narrow build writes them: pairs, halves, truncated second halves
+    for hi in (b"\\ud83d", b"\\ud800", b"\\udbff"):
+        for lo in (b"", b"\\", b"\\u", b"\\ud", b"\\ude", b"\\ude0", b"\\ude00", b"\\udc00", b"\\udfff", b"\\u0041", b"\\ud83d", b"\\U0000de00", b"x", b"\\ude00\\ude00"):
+            bodies.append(hi + lo)
+    bodies += [b"\\ude00\\ud83d", b"\\ude00", b"\\udc00\\udc00"]
     for body in bodies:
         for pre, post in ((b"", b""), (b"a", b"b")):
             t = pre + body + post
@@ -329,6 +334,22 @@ def c10(res, rng, tier):
                 cmeta.append((d, k, pd, su))
     impl = C.implrun(cases)
     model = C.modelrun(cases)
+    # the same prefixes from a Reader that hands over its last bytes TOGETHER with io.EOF (one Read, and 3-byte Reads):
+    # how the end of the input is signalled must not change the verdict
+    ecases, emeta = [], []
+    for j in range(0, len(cases), 4):           # one configuration per prefix
+        d, k, pd, su = cmeta[j]
+        for sched in ("%dE" % max(k, 1), "3*E"):
+            ecases.append("decchunk %s %s 0 %s %s" % (pd, su, sched, d[:k].hex())); emeta.append((d, k, pd, su, sched))
+    eimpl = C.implrun(ecases)
+    for (d, k, pd, su, sched), io in zip(emeta, eimpl):
+        want = "err eof" if k == 0 else "err ueof"
+        first = parts(io)[0]
+        if first != want:
+            res.violation("prefix of length %d of a valid %d-byte pickle, last bytes delivered together with io.EOF (schedule %s), gives %r instead of %r"
+                          % (k, len(d), sched, first[:80], want),
+                          {"kind": "impl", "pickle_hex": d.hex(), "cut": k, "pydict": pd, "strict": su, "schedule": sched,
+                           "observed": io[:300], "cmd": "echo 'decchunk %s %s 0 %s %s' | harness/go/implrun" % (pd, su, sched, d[:k].hex())})
     mism = 0
     for i, (mo, io) in enumerate(zip(model, impl)):
         d, k, pd, su = cmeta[i]
@@ -345,7 +366,7 @@ def c10(res, rng, tier):
                               {"kind": "correspondence", "input_hex": d[:k].hex(), "pydict": pd, "strict": su,
                                "model": mo[:300], "impl": io[:300]}, found_input=False)
     res.coverage.update({
-        "evaluations": len(cases), "distinct_nontrivial": len(set((m[0], m[1]) for m in cmeta if m[1] > 0)),
+        "evaluations": len(cases) + len(ecases), "eof_with_data_runs": len(ecases), "distinct_nontrivial": len(set((m[0], m[1]) for m in cmeta if m[1] > 0)),
         "rule": "valid pickles (generated, long-line/LONG1/8-byte-length/frame specials, valid corpus files) x every cut position (all cuts up to 300 bytes, first/last 64 and a 64-step grid beyond) x 4 configs; non-trivial = distinct (pickle, cut>0)",
         "programs": len(cases), "disagreements_checked": len(cases), "valid_pickle_runs": nvalid,
         "opcode_histogram_generated": hist})
